@@ -121,6 +121,13 @@ func openStorage(dir string, opt Options) (*storage, error) {
 	if s.log, err = log.Open(filepath.Join(dir, "log"), 0700, logOpt); err != nil {
 		return nil, err
 	}
+	if s.log.LastIndex() < s.snaps.index {
+		// the process died after an installed snapshot was stored and before
+		// the log was reset: everything in the log is covered by the snapshot
+		if err = s.log.Reset(s.snaps.index); err != nil {
+			return nil, err
+		}
+	}
 	if s.log.Count() > 0 {
 		data, err := s.log.Get(s.log.LastIndex())
 		if err != nil {
